@@ -139,6 +139,27 @@ static void check(const Case &cc) {
     for (H3Index h : S[0]) CHECK(S[2].count(h), "nesting", "%016llx is in CENTER but not in OVERLAPPING", (unsigned long long)h);
     for (H3Index h : S[2]) CHECK(S[3].count(h), "nesting", "%016llx is in OVERLAPPING but not in OVERLAPPING_BBOX", (unsigned long long)h);
 
+    // the cell that contains the first polygon vertex ON THE SPHERE (what latLngToCell returns; C02) shares a point with the polygon, so
+    // OVERLAPPING (and OVERLAPPING_BBOX) must return it — also when the vertex sits in the sliver between a great-circle cell edge and
+    // its lat/lng chord, where the planar reading puts it into the neighbour. Claimed only when the vertex is clear of the cell's
+    // great-circle boundary by more than the margin.
+    {
+        LatLng v0 = c.g.outer[0];
+        H3Index a0 = 0;
+        CellBoundary cb0;
+        LatLng np0 = {gen::PI / 2, 0}, sp0 = {-gen::PI / 2, 0};
+        if (latLngToCell(&v0, res, &a0) == E_SUCCESS && a0 != gen::cellAt(np0, res) && a0 != gen::cellAt(sp0, res) && cellToBoundary(a0, &cb0) == E_SUCCESS) {
+            std::vector<gq::V> poly;
+            for (int i = 0; i < cb0.numVerts; i++) poly.push_back(gq::fromLL(cb0.verts[i].lat, cb0.verts[i].lng));
+            Q dist = gq::distToBoundary(poly, gq::fromLL(v0.lat, v0.lng));
+            Q M0 = fminq(MARGIN, fmaxq((Q)2e-11, (Q)(1e-3 * gen::cellWidth(res))));
+            if (dist > M0) {
+                COUNT("first_vertex_cell(spherical containment)");
+                CHECK(S[2].count(a0), "overlap-first-vertex", "OVERLAPPING omits %016llx, the cell that contains the first polygon vertex (%.3e rad inside its great-circle boundary)", (unsigned long long)a0, (double)dist);
+                CHECK(S[3].count(a0), "overlap-first-vertex", "OVERLAPPING_BBOX omits %016llx, the cell that contains the first polygon vertex", (unsigned long long)a0);
+            }
+        }
+    }
     // semantic sandwich per candidate cell
     std::vector<H3Index> cand;
     if (!pq::candidates(c.g, res, cand, 60000)) { COUNT("skipped.too_many_candidates"); DISCARD(); return; }
@@ -162,12 +183,15 @@ static void check(const Case &cc) {
             for (auto &p : cg.v) ext = fmaxq(ext, fabsq(p.x - cg.c.x));
             if (fabsq(cg.c.x - mid) + ext + (fr.maxx - fr.minx) / 2 > gq::PIq * 0.95Q) { COUNT("cell_frame_ambiguous(not judged)"); continue; }
         }
-        Q D = MARGIN + cg.bulge;
+        // margin: 1e-9 rad, at the two finest resolutions 1e-3 of a cell width (1e-9 rad is 1 % of a res-15 cell and would leave every
+        // polygon of a few 1e-9 rad undecided), never below ten times the point-location tolerance of C02
+        const Q M = fminq(MARGIN, fmaxq((Q)2e-11, (Q)(1e-3 * gen::cellWidth(res))));
+        Q D = M + cg.bulge;
         int nv = (int)cg.v.size();
         // vertex / centre verdicts
-        int cIn = pq::inPoly(qp, cg.c, MARGIN);
+        int cIn = pq::inPoly(qp, cg.c, M);
         int vin = 0, vout = 0;
-        for (auto &p : cg.v) { int t = pq::inPoly(qp, p, MARGIN); if (t > 0) vin++; else if (t < 0) vout++; }
+        for (auto &p : cg.v) { int t = pq::inPoly(qp, p, M); if (t > 0) vin++; else if (t < 0) vout++; }
         // polygon vertices inside the cell; distances between boundaries
         std::vector<P2> cellLoop = cg.v;
         bool polyVertInside = false, polyVertNear = false;
